@@ -47,6 +47,20 @@ def run_cc(W, cfg):
             W.ob('the QE spectrum still describes the same wavelengths', sp.wave * (W.const(1 / fac) if W.sym else float(1 / fac)), W.array([W.const(g) for g in grid]))
     want = [[W.sum(img[w][i, j] * qs[w] for w in range(nw)) for j in range(shp[1])] for i in range(shp[0])]
     W.ob('e = sum_w photons * qe', got, W.array(want))
+    if cfg['qe'].startswith('spectrum'):
+        # the same Spectrum object with its values replaced (a revised calibration), same wavelengths: the new curve is the one applied;
+        # and a different Spectrum afterwards on the same wavelengths is applied as itself
+        qs2 = [W.real(f'r{k}') for k in range(nw)]
+        sp.value = W.array([W.real('rlo')] + qs2 + [W.real('rhi')])
+        got2 = lt.detector.collect_charge(img, waves, sp, waveunit='nm')
+        W.ob('QE values replaced on the same Spectrum: e = sum_w photons * new qe', got2,
+             W.array([[W.sum(img[w][i, j] * qs2[w] for w in range(nw)) for j in range(shp[1])] for i in range(shp[0])]))
+        for rep in range(3):
+            half = sp * (W.const(Fraction(1, 2 + rep)) if W.sym else 1.0 / (2 + rep))       # a temporary, dropped after the call
+            got3 = lt.detector.collect_charge(img, waves, half, waveunit='nm')
+            del half
+            W.ob(f'a temporary scaled QE spectrum (1/{2 + rep}) is applied as itself', got3 * (2 + rep),
+                 W.array([[W.sum(img[w][i, j] * qs2[w] for w in range(nw)) for j in range(shp[1])] for i in range(shp[0])]))
 
 
 # ------------------------------------------------------------------ bayer
